@@ -114,8 +114,13 @@ func (jit *JITCompiler) CompileRoute(name string, route *ast.Route) ([]byte, err
 	startTime := time.Now()
 
 	// Check if we have a cached compiled unit
+	// The unit is copied under the lock: recompileRoute updates it in place
 	jit.unitsMux.RLock()
 	unit, exists := jit.units[name]
+	var current CompilationUnit
+	if exists {
+		current = *unit
+	}
 	jit.unitsMux.RUnlock()
 
 	if exists {
@@ -125,11 +130,11 @@ func (jit *JITCompiler) CompileRoute(name string, route *ast.Route) ([]byte, err
 		jit.statsMux.Unlock()
 
 		// Check if we should recompile to a higher tier
-		if jit.shouldRecompile(unit) {
+		if jit.shouldRecompile(&current) {
 			return jit.recompileRoute(name, route, unit)
 		}
 
-		return unit.Bytecode, nil
+		return current.Bytecode, nil
 	}
 
 	// Cache miss - compile for the first time
@@ -233,7 +238,9 @@ func (jit *JITCompiler) recompileRoute(name string, route *ast.Route, currentUni
 	startTime := time.Now()
 
 	// Determine next tier
+	jit.unitsMux.RLock()
 	nextTier := jit.getNextTier(currentUnit.Tier)
+	jit.unitsMux.RUnlock()
 
 	// Compile with new tier
 	bytecode, err := jit.compileWithTier(route, nextTier)
@@ -434,13 +441,17 @@ func (jit *JITCompiler) CompileRouteWithTypes(name string, route *ast.Route, typ
 func (jit *JITCompiler) CheckAdaptiveRecompilation(name string, route *ast.Route) (bool, error) {
 	jit.unitsMux.RLock()
 	unit, exists := jit.units[name]
+	var currentTier OptimizationTier
+	if exists {
+		currentTier = unit.Tier
+	}
 	jit.unitsMux.RUnlock()
 
 	if !exists {
 		return false, nil
 	}
 
-	trigger := jit.recompileTrigger.ShouldRecompile(name, unit.Tier)
+	trigger := jit.recompileTrigger.ShouldRecompile(name, currentTier)
 	if !trigger.ShouldRecompile {
 		return false, nil
 	}
@@ -461,14 +472,12 @@ func (jit *JITCompiler) CheckAdaptiveRecompilation(name string, route *ast.Route
 
 // RecordDeoptimization records when specialized code had to deoptimize
 func (jit *JITCompiler) RecordDeoptimization(routeName string, reason string, typeMismatch map[string]string) {
-	jit.unitsMux.RLock()
-	unit, exists := jit.units[routeName]
-	jit.unitsMux.RUnlock()
-
 	var fromTier OptimizationTier
-	if exists {
+	jit.unitsMux.RLock()
+	if unit, exists := jit.units[routeName]; exists {
 		fromTier = unit.Tier
 	}
+	jit.unitsMux.RUnlock()
 
 	record := DeoptimizationRecord{
 		RouteName:    routeName,
